@@ -41,6 +41,19 @@ class _TupleStrip(ast.NodeTransformer):
                 else:
                     args.append(a)
             node.args = args
+        # f(*map(F, X)) is f(*[F(c) for c in X]) (both are exhausted before the call)
+        for k, a in enumerate(node.args):
+            if isinstance(a, ast.Starred) and isinstance(a.value, ast.Call) and \
+                    isinstance(a.value.func, ast.Name) and a.value.func.id == 'map' and \
+                    len(a.value.args) == 2 and not a.value.keywords and \
+                    isinstance(a.value.args[0], (ast.Name, ast.Attribute)):
+                m = a.value
+                node.args[k] = ast.Starred(value=ast.ListComp(
+                    elt=ast.Call(func=m.args[0], args=[ast.Name(id='_m', ctx=ast.Load())],
+                                 keywords=[]),
+                    generators=[ast.comprehension(
+                        target=ast.Name(id='_m', ctx=ast.Store()), iter=m.args[1],
+                        ifs=[], is_async=0)]), ctx=ast.Load())
         if isinstance(node.func, ast.Name) and node.func.id == 'tuple' and \
                 len(node.args) == 1 and not node.keywords:
             a = node.args[0]
@@ -92,6 +105,15 @@ def nt(expr):
         from ..normalize import alpha
         alpha(e)
     return norm_src(e)
+
+
+def nform(expr):
+    """normal-form AST of a resolved expression (nt without unparsing)"""
+    e = _TupleStrip().visit(clone(expr))
+    if any(isinstance(n, _COMPS) for n in ast.walk(e)):
+        from ..normalize import alpha
+        alpha(e)
+    return e
 
 
 def ntext(text):
